@@ -7,6 +7,8 @@
 (*    [k |-> "f", t |-> tuple]   selected by the keyref                       *)
 (*    [k |-> "i", t |-> <<v>>]   carries an xs:ID attribute                   *)
 (*    [k |-> "p", t |-> <<v>>]   carries an xs:IDREF attribute                *)
+(*    [k |-> "j", t |-> <<v>>]   an element whose CONTENT is of type xs:ID     *)
+(*    [k |-> "q", t |-> <<v, w>>] carries an xs:IDREFS attribute (two refs)     *)
 (* tuple components are VALUES (classes of the value space; the renderer      *)
 (* picks different lexical forms for equal values) or None (field absent).   *)
 (*                                                                          *)
@@ -25,14 +27,17 @@ CONSTANTS NF,         \* number of fields: 1 or 2
           Level,      \* "inner" | "outer"
           MaxRows,    \* rows in the whole document
           MaxScopes,  \* scope elements
-          RowKinds    \* subset of {"k", "f", "i", "p"}
+          RowKinds,   \* subset of {"k", "f", "i", "p", "j", "q"}
+          IdVer       \* "1.0" | "1.1": an ID-typed CHILD element identifies ... (see Binder)
 
 None == "none"
 Val == {"v1", "v2"}
 FieldVal == Val \cup {None}
 Tuples == [1..NF -> FieldVal]
 IdTuples == [1..1 -> Val]
+RefsTuples == [1..2 -> Val]
 RowsOf(kind) == IF kind \in {"k", "f"} THEN {[k |-> kind, t |-> t] : t \in Tuples}
+                ELSE IF kind = "q" THEN {[k |-> kind, t |-> t] : t \in RefsTuples}
                 ELSE {[k |-> kind, t |-> t] : t \in IdTuples}
 Rows == UNION {RowsOf(kind) : kind \in RowKinds}
 
@@ -52,10 +57,19 @@ DeclMissing(tb) == KeyKind = "key" /\ \E i \in KeyRows(tb) : ~Qualified(tb[i].t)
 DeclDangling(tb) == \E i \in RefRows(tb) :
                       /\ Qualified(tb[i].t)
                       /\ ~\E j \in KeyRows(tb) : Qualified(tb[j].t) /\ tb[j].t = tb[i].t
-IdRows(d)  == LET f == Flatten(d) IN {i \in DOMAIN f : f[i].k = "i"}
-DeclIdDup(d) == LET f == Flatten(d) IN \E i \in IdRows(d) : \E j \in IdRows(d) : i # j /\ f[i].t = f[j].t
+IdRows(d)  == LET f == Flatten(d) IN {i \in DOMAIN f : f[i].k \in {"i", "j"}}
+(* Which element an ID value identifies.  An ID-typed ATTRIBUTE identifies its owner (the row). *)
+(* An ID-typed child ELEMENT: in XSD 1.0 every occurrence counts on its own; in XSD 1.1 it       *)
+(* identifies its PARENT (here the scope element), and the same element may be identified by     *)
+(* the same value more than once - a value is duplicated only when it identifies two DIFFERENT   *)
+(* elements (3.17.5.2).                                                                          *)
+Binder(k, sc, rw) == IF k = "j" /\ IdVer = "1.1" THEN <<sc, 0>> ELSE <<sc, rw>>
+IdBindings(d) == UNION {{<<d[sc][rw].t, Binder(d[sc][rw].k, sc, rw)>> :
+                            rw \in {x \in DOMAIN d[sc] : d[sc][x].k \in {"i", "j"}}} : sc \in DOMAIN d}
+DeclIdDup(d) == \E a \in IdBindings(d) : \E b \in IdBindings(d) : a[1] = b[1] /\ a[2] # b[2]
 DeclIdref(d) == LET f == Flatten(d) IN
-                \E i \in DOMAIN f : f[i].k = "p" /\ ~\E j \in IdRows(d) : f[j].t = f[i].t
+                \/ \E i \in DOMAIN f : f[i].k = "p" /\ ~\E j \in IdRows(d) : f[j].t = f[i].t
+                \/ \E i \in DOMAIN f : f[i].k = "q" /\ \E c \in 1..2 : ~\E j \in IdRows(d) : f[j].t = <<f[i].t[c]>>
 DeclKinds(d) ==
   (IF \E x \in DOMAIN Tables(d) : DeclDup(Tables(d)[x]) THEN {"dup"} ELSE {})
   \cup (IF \E x \in DOMAIN Tables(d) : DeclMissing(Tables(d)[x]) THEN {"missing"} ELSE {})
@@ -103,13 +117,17 @@ Select(r) == /\ phase = "scope" /\ nrows < MaxRows
                   [] r.k = "f" ->
                        /\ UNCHANGED <<keys, ids, idrefs, errs>>
                        /\ refs' = IF Qualified(r.t) THEN refs \cup {r.t} ELSE refs
-                  [] r.k = "i" ->
+                  [] r.k \in {"i", "j"} ->
                        /\ UNCHANGED <<keys, refs, idrefs>>
-                       /\ ids' = ids \cup {r.t}
-                       /\ errs' = errs \cup (IF r.t \in ids THEN {"iddup"} ELSE {})
+                       /\ LET b == Binder(r.k, Len(doc), Len(doc[Len(doc)]) + 1) IN
+                            /\ ids' = ids \cup {<<r.t, b>>}
+                            /\ errs' = errs \cup (IF \E x \in ids : x[1] = r.t /\ x[2] # b THEN {"iddup"} ELSE {})
                   [] r.k = "p" ->
                        /\ UNCHANGED <<keys, refs, ids, errs>>
                        /\ idrefs' = idrefs \cup {r.t}
+                  [] r.k = "q" ->
+                       /\ UNCHANGED <<keys, refs, ids, errs>>
+                       /\ idrefs' = idrefs \cup {<<r.t[1]>>, <<r.t[2]>>}
              /\ UNCHANGED phase
 
 (* leaving the scope element: key references of an inner constraint resolve   *)
@@ -122,7 +140,7 @@ LeaveScope == /\ phase = "scope"
 EndDoc == /\ phase = "root"
           /\ phase' = "done"
           /\ errs' = errs \cup (IF Level = "outer" THEN Resolve(keys, refs) ELSE {})
-                          \cup (IF idrefs \subseteq ids THEN {} ELSE {"idref"})
+                          \cup (IF idrefs \subseteq {x[1] : x \in ids} THEN {} ELSE {"idref"})
           /\ UNCHANGED <<doc, keys, refs, ids, idrefs, nrows>>
 
 Next == EnterScope \/ LeaveScope \/ EndDoc \/ \E r \in Rows : Select(r)
